@@ -1,17 +1,21 @@
 """C12 — Python-object conversion of contract data round-trips.
 
-Cases: storage / parameter types to depth 4 (named and unnamed pairs and unions, duplicate names, names equal to the
-generated `prim_i`, named inner pairs, `:type` names, empty names, enums, unions of pairs, options, lists, sets and maps
-with composite keys, big_map literals and ids) and random values of each.
+Cases: storage / parameter types to depth 4 (named and unnamed pairs and unions, duplicate names, named inner pairs,
+`:type` names, empty names, enums, unions of pairs, options, lists, sets and maps with composite keys, big_map literals
+and ids) and random values of each.  About a third of the types with a pair / union node are deliberately given a
+FORMER COLLISION SHAPE (`gen_c12.lookalike`): a declared name equal to the name `prim_j` another leaf of the same layout
+would be generated — declared before or after that leaf, in pairs and unions, at the root or nested, as %field or :type
+name, optionally with a third leaf declaring the first way out `prim_j_` (counted in `former-collision-shape`).
 
 Streams compared with the Lean mirror (`lean/Driver/C12.lean`): `to_python_object(lazy_diff=None)`, the comparable
 rendering of key types, `from_python_object` of that object (and of shuffled / malformed objects), the layout (field
 names) of every pair / union node, and the Lean `PyInvertible` against the independent Python statement
 (`gen_c12.excluded`).
 
-Oracle on the real code: from_python_object(to_python_object(v)) == v; field names of every node unique, equal to the
-documented naming and equal to the keys actually used; ContractData.decode/encode and ContractEntrypoint.encode/decode
-are mutual inverses."""
+Oracle on the real code: from_python_object(to_python_object(v)) == v; field names of EVERY pair / union node pairwise
+different (no exception for generated-looking declared names), equal to the documented naming, unchanged from the old
+naming wherever that had no collision, and equal to the keys actually used; ContractData.decode/encode and
+ContractEntrypoint.encode/decode are mutual inverses."""
 from harness import gen_c12 as G
 from translator import extract
 
@@ -97,24 +101,52 @@ def roundtrip(t, v, real=None):
 
 
 # ---------------------------------------------------------------------------------------------- shrinking
-def shrink(t, v, fails):
-    def tcands(t):
-        """smaller types (for the parts of a type the value does not reach)"""
-        if t[1] != G.NOANN:
-            yield G.with_ann(t, G.NOANN)
-        if t[0] == 's':
-            if t[2] != 'unit':
-                yield ('s', t[1], 'unit')
-            return
-        yield ('s', t[1], 'unit')
-        ch = list(t[2:])
-        for i, a in enumerate(ch):
-            if t[0] in 'po':
-                yield G.with_ann(a, t[1])
-            for a2 in tcands(a):
-                if t[0] in 'po' or a2[1][0] is None:
-                    yield (t[0], t[1]) + tuple(ch[:i] + [a2] + ch[i + 1:])
+def tcands(t):
+    """smaller types (for the parts of a type the value does not reach)"""
+    if t[1] != G.NOANN:
+        yield G.with_ann(t, G.NOANN)
+        if t[1][0] is not None and t[1][1] is not None:
+            yield G.with_ann(t, (t[1][0], None))
+    if t[0] == 's':
+        if t[2] != 'unit':
+            yield ('s', t[1], 'unit')
+        return
+    yield ('s', t[1], 'unit')
+    ch = list(t[2:])
+    for i, a in enumerate(ch):
+        if t[0] in 'po':
+            yield G.with_ann(a, t[1])
+        for a2 in tcands(a):
+            if t[0] in 'po' or a2[1][0] is None:
+                yield (t[0], t[1]) + tuple(ch[:i] + [a2] + ch[i + 1:])
 
+
+def shrink_type(t, fails):
+    """a locally minimal pair / union type on which `fails` still holds"""
+    changed, steps = True, 0
+    while changed and steps < 400:
+        changed = False
+        for t2 in tcands(t):
+            steps += 1
+            try:
+                if t2[0] in 'po' and fails(t2):
+                    t, changed = t2, True
+                    break
+            except Exception:
+                pass
+    return t
+
+
+def real_names(t):
+    """field names the real code gives a pair / union node (None: tuple layout / type rejected)"""
+    r = Real(t)
+    if r.err:
+        return None
+    mode, lay = r.layout()
+    return [k for _, k in lay] if mode == 'dict' else None
+
+
+def shrink(t, v, fails):
     def cands(t, v):
         k = t[0]
         if t[1] != G.NOANN:
@@ -199,22 +231,6 @@ def shrink(t, v, fails):
     return t, v
 
 
-def decollide(t):
-    """the same type with every declared name that looks like a generated one (`<prim>_<digits>`) made fresh"""
-    import re
-    n = [0]
-
-    def fresh(a):
-        if a is not None and re.fullmatch(r'[a-z0-9_]+_\d+', a):
-            n[0] += 1
-            return f'zz{n[0]}x'
-        return a
-
-    def go(x):
-        return (x[0], (fresh(x[1][0]), fresh(x[1][1]))) + tuple(go(a) if isinstance(a, tuple) else a for a in x[2:])
-    return go(t)
-
-
 # ---------------------------------------------------------------------------------------------- the check
 CORPUS = [
     # DESIGN §5 C12
@@ -240,6 +256,21 @@ CORPUS = [
      ('m', [(('P', ('s', 'a'), ('L', ('I', 1))), ('l', [('I', 1)])), (('P', ('s', 'a'), ('R', ('s', 'z'))), ('l', []))])),
     (('O', G.NOANN, ('s', G.NOANN, 'unit')), ('J', ('U',))),
     (('p', G.NOANN, ('s', ('', None), 'nat'), ('s', (None, 't'), 'nat')), ('P', ('I', 1), ('I', 2))),
+    # former collision shapes (fixes/C12-1): declared before / after, pair / or, :type name, the first way out taken as well, nested
+    (('o', G.NOANN, ('s', ('string_1', None), 'nat'), ('s', G.NOANN, 'string')), ('R', ('s', 'a'))),
+    (('o', G.NOANN, ('s', G.NOANN, 'nat'), ('s', ('nat_0', None), 'string')), ('L', ('I', 1))),
+    (('o', G.NOANN, ('s', G.NOANN, 'nat'), ('s', ('nat_0', None), 'string')), ('R', ('s', 'a'))),
+    (('p', G.NOANN, ('s', (None, 'nat_1'), 'nat'), ('s', G.NOANN, 'nat')), ('P', ('I', 1), ('I', 2))),
+    (('p', G.NOANN, ('s', ('nat_1', None), 'nat'), ('p', G.NOANN, ('s', G.NOANN, 'nat'), ('s', ('nat_1_', None), 'nat'))), ('P', ('I', 1), ('P', ('I', 2), ('I', 3)))),
+    (('p', G.NOANN, ('s', ('nat_2', None), 'nat'), ('p', G.NOANN, ('s', ('nat_2', None), 'nat'), ('s', G.NOANN, 'nat'))), ('P', ('I', 1), ('P', ('I', 2), ('I', 3)))),
+    (('p', G.NOANN, ('s', G.NOANN, 'unit'), ('p', G.NOANN, ('s', G.NOANN, 'bool'), ('s', ('unit_0', 'bool_1'), 'int'))), ('P', ('U',), ('P', ('T',), ('I', -1)))),
+    (('o', G.NOANN, ('s', ('unit_1', None), 'unit'), ('o', G.NOANN, ('s', G.NOANN, 'unit'), ('s', ('unit_1_', None), 'unit'))), ('R', ('L', ('U',)))),
+    (('o', G.NOANN, ('s', ('a', None), 'nat'), ('p', ('b', None), ('s', G.NOANN, 'string'), ('s', ('string_0', None), 'bytes'))), ('R', ('P', ('s', 'x'), ('x', b'\x01')))),
+    (('p', G.NOANN, ('s', ('k', None), 'nat'), ('o', G.NOANN, ('s', ('pair_1', None), 'unit'), ('p', G.NOANN, ('s', G.NOANN, 'nat'), ('s', G.NOANN, 'nat')))), ('P', ('I', 1), ('R', ('P', ('I', 2), ('I', 3))))),
+    (('l', G.NOANN, ('p', G.NOANN, ('s', G.NOANN, 'nat'), ('s', ('nat_0', None), 'nat'))), ('l', [('P', ('I', 1), ('I', 2)), ('P', ('I', 3), ('I', 4))])),
+    (('m', G.NOANN, ('o', G.NOANN, ('s', ('int_1', None), 'nat'), ('s', G.NOANN, 'int')), ('p', G.NOANN, ('s', ('string_1', None), 'nat'), ('s', G.NOANN, 'string'))),
+     ('m', [(('L', ('I', 1)), ('P', ('I', 1), ('s', 'a'))), (('R', ('I', -1)), ('P', ('I', 2), ('s', 'b')))])),
+    (('p', G.NOANN, ('O', ('option_1', None), ('s', G.NOANN, 'nat')), ('O', G.NOANN, ('s', G.NOANN, 'nat'))), ('P', ('N',), ('J', ('I', 1)))),
 ]
 
 
@@ -251,9 +282,10 @@ def gen_cases(ctx):
         d = rng.choice([1, 2, 2, 3, 3, 4])
         t = G.rand_type(rng, d, p_field=rng.choice([0.2, 0.5, 0.9]), p_type=rng.choice([0.0, 0.15, 0.4]))
         origin = 'random'
-        if t[0] in 'po' and rng.random() < 0.25:
-            t = G.lookalike(rng, t)
-            origin = 'random-lookalike'
+        if rng.random() < 0.35 and any(True for _ in G.layout_nodes(t)):
+            t2 = G.lookalike(rng, t)
+            if t2 != t:
+                t, origin = t2, 'random-lookalike'
         if rng.random() < 0.15:
             t = G.with_ann(t, G.rand_ann(rng, 0.5, 0.3))
         for _ in range(rng.choice([1, 1, 2])):
@@ -266,7 +298,9 @@ def run(ctx):
     ctx.prepare_lean(st)
     ctx.extra['rule'] = ('random types to depth 4 over unit/bool/nat/int/mutez/timestamp/string/bytes, pair, or (incl. enums), option, list, set, '
                          'map, big_map with %field / :type names from a pool that contains duplicates, empty names and generated-looking names '
-                         '(`nat_1`, `pair_0`, ...; a quarter of the pair/union nodes get a deliberate look-alike), random values (sets / maps '
+                         '(`nat_1`, `pair_0`, ...); about a third of the types with a pair / union node get a deliberate former collision shape '
+                         '(a declared name equal to the `prim_j` another leaf of the same layout would be generated: declared before or after it, '
+                         'pair or union, root or nested node, %field or :type, sometimes `prim_j_` declared as well); random values (sets / maps '
                          'sorted, big_map literal or id); non-trivial = type has a pair, union or collection')
     ctx.assumptions += [
         'values are those the implementation itself builds from Micheline (from_micheline_value); their Micheline coding is C11',
@@ -340,9 +374,6 @@ def run(ctx):
         model = None     # the translator did not recognise the source (obligation already broken): oracle only
 
     def cmp(stream, desc, impl, idx):
-        if model is not None and model[idx] == 'unmodelled':
-            ctx.count('unmodelled-input', stream)      # only reachable through a colliding field name (bool where an int is expected)
-            return
         if model is not None and model[idx] != impl:
             ctx.mismatch(stream, desc, impl, model[idx])
 
@@ -358,12 +389,7 @@ def run(ctx):
         ok, py = en['py']
         excl_now = G.excluded(t, False, unit_hashable, pair_lt_lex)              # the classes excluded on this tree
         impl_py = ' '.join(G.py_toks(py)) if ok else py
-        if model is not None and model[en['i0']] != impl_py and any(c == 'field-name-collision' for c, _ in excl_now) and ok and any(tok in ('T', 'F') for tok in (impl_py + ' ' + model[en['i0']]).split()):
-            # Python's `True == 1` / `False == 0` for dict keys is not modelled; two keys can only differ in bool-vs-int when
-            # union branches of different type share a (colliding) name
-            ctx.count('unmodelled-input', 'bool-int-key-equality')
-        else:
-            cmp('to-python-object', desc, impl_py, en['i0'])
+        cmp('to-python-object', desc, impl_py, en['i0'])
         cmp('pyinvertible-vs-python-spec', tdesc, 'false' if excl_now else 'true', en['inv_line'])
         ctx.count('invertible', 'yes' if not excl_now else ','.join(sorted({c for c, _ in excl_now})))
         if ok:
@@ -379,18 +405,24 @@ def run(ctx):
             mode, lay = nreal.layout()
             impl_line = mode + ' ' + ' '.join((p or '.') + ('=' + (k.encode().hex() or '-') if mode == 'dict' else '') for p, k in (lay if mode == 'dict' else [(p, '') for p in lay]))
             cmp('layout', G.ty_str(n_), impl_line.strip(), node_seen[n_])
-            want = G.node_names(n_)
             names = [k for _, k in lay] if mode == 'dict' else None
+            for fc in sorted(set(G.former_collisions(n_))):
+                ctx.count('former-collision-shape', f'{fc[0]}:{fc[1]}:' + ('root' if n_ == t else 'nested'))
+            if names is not None and len(set(names)) != len(names):
+                # the property itself: no two fields of a node share a name, whatever the declared names look like
+                m_ = shrink_type(n_, lambda x: (lambda ns: ns is not None and len(set(ns)) != len(ns))(real_names(x)))
+                mn = real_names(m_)
+                ctx.violation(f'field-names-not-unique[{G.ty_str(m_)}]', f'{G.ty_str(m_)}: field names {mn} are not unique (expected pairwise different names, '
+                              f'e.g. {G.node_names(m_)})', {'type': G.ty_expr(m_), 'names': mn, 'found_on': G.ty_str(n_)})
+                continue
+            want = G.node_names(n_)
             if names != want:
                 ctx.violation(f'field-names-not-as-documented:{G.ty_str(n_)}', f'{G.ty_str(n_)}: field names {names}, documented naming gives {want}', {'type': G.ty_expr(n_)})
-            elif names is not None and len(set(names)) != len(names):
-                kind = 'pair' if n_[0] == 'p' else 'or'
-                ctx.count('field-name-collision', kind)
-                dn = decollide(n_)
-                dnames = G.node_names(dn)
-                explained = dnames is None or len(set(dnames)) == len(dnames)
-                key = f'field-name-collision:{kind}' if explained else f'field-names-not-unique:{G.ty_str(n_)}'
-                ctx.violation(key, f'{G.ty_str(n_)}: field names {names} are not unique (a generated `prim_i` name equals a declared one)', {'type': G.ty_expr(n_), 'names': names})
+                continue
+            old, _, _ = G.first_pass_names(G.node_leaves(n_))
+            if names is not None and len(set(old)) == len(old) and names != old:
+                ctx.violation(f'field-names-changed-without-collision:{G.ty_str(n_)}', f'{G.ty_str(n_)}: field names {names}, but the names {old} '
+                              'had no collision and must stay', {'type': G.ty_expr(n_)})
         # ---- the round trip
         f = roundtrip(t, v, real)
         ctx.count('roundtrip', 'ok' if f is None else f[0])
@@ -416,8 +448,6 @@ def run(ctx):
                 ex2 = sorted({c for c, _ in G.excluded(t2, False, unit_hashable, pair_lt_lex)})
                 if not ex2:
                     key = f'{f[0]}[{G.ty_str(t2)} | {G.val_str(v2)}]'
-                elif ex2 == ['field-name-collision'] and roundtrip(decollide(t2), v2) is None:
-                    key = 'field-name-collision:' + ('pair' if any(c == 'field-name-collision' and n[0] == 'p' for c, n in G.excluded(t2)) else 'or')
                 elif ex2 == ['option-of-option']:
                     key = f'option-of-option[{G.ty_str(t2)} | {G.val_str(v2)}]'
                 else:
